@@ -3,7 +3,6 @@
 package cl
 
 import (
-	"io"
 	"strings"
 
 	"github.com/ohler55/slip"
@@ -55,8 +54,8 @@ func (f *YesOrNoP) Call(s *slip.Scope, args slip.List, depth int) (result slip.O
 		prompt = append(prompt, ' ')
 	}
 	prompt = append(prompt, "(yes or no) "...)
-	w := s.Get("*standard-output*").(io.Writer)
-	r := s.Get("*standard-input*").(io.Reader)
+	w := s.WriterVar("*standard-output*", depth)
+	r := s.ReaderVar("*standard-input*", depth)
 
 top:
 	for {
